@@ -5,7 +5,7 @@ from fractions import Fraction
 
 from sa.report import Cx
 from sa.walker import WalkOptions
-from sa.terms import (Sym, Attr, Sub, App, Num, Const, Fresh, CompInfo, AIn, AIs, ATruthy, f_and, f_not, implies, compare, mk_cmp)
+from sa.terms import (Sym, Attr, Sub, App, Num, Const, Fresh, CompInfo, TupleT, AIn, AIs, ATruthy, f_and, f_or, f_not, implies, compare, mk_cmp, atoms_of)
 from .common import CORE, check_pure, order_class, strip_versions
 
 PID = 'C13'
@@ -88,98 +88,92 @@ def run(cx: Cx):
             reported.add(missing)
             cx.violation(rule, ga.qualname, missing, msg, where=where, **kw)
 
-    def base_list_ok(p, L, where):
-        """L is built from agents in order, containing an agent iff has_component(*args) (or everything when no template)."""
-        notempl = mk_cmp(App('len', (va,)), '==', Num(Fraction(0)))
-        if isinstance(L, Fresh) and L.kind == 'listcomp' and isinstance(L.detail, CompInfo) and len(L.detail.gens) == 1:
-            tgt, src, conds = L.detail.gens[0]
-            if order_class(src, agents) != 'inorder':
-                viol('R-ITER', 'lists-agents-in-joining-order', f"get_agents builds its list from {src!r}", where)
-                return False
-            ag = Sub(agents, tgt) if strip_versions(src) == agents else tgt
-            if L.detail.elt != ag:
-                viol('R-FRESH', 'yields-the-agents', f"get_agents collects {L.detail.elt!r}, not the agents", where)
-                return False
-            hc = ATruthy(App('call:' + CORE + 'Agent.has_component', (ag, App('*', (va,)))))
-            if not conds:
-                if implies(p.cond, notempl) is not None:
-                    viol('R-GUARD', 'template-filter-applied', "get_agents returns every agent although a component template was given", where)
-                    return False
-                return True
-            if f_and(*conds) != hc:
-                viol('R-GUARD', 'template-filter-is-has_component', f"get_agents filters with [{f_and(*conds)!r}], not has_component(*args)", where)
-                return False
-            return True
-        if isinstance(L, Fresh) and L.kind in ('list', 'call:list') and not L.items:
-            # literal + appends in a loop over agents
-            loops = [e for e in p.events if e.kind == 'loop' and order_class(e.data.get('iter'), agents) != 'unrelated']
-            if implies(p.cond, notempl) is None and not loops:
-                viol('R-GUARD', 'no-template-lists-everyone', "get_agents returns an empty list when no template is given", where)
-                return False
-            if len(loops) != 1 or order_class(loops[0].data.get('iter'), agents) != 'inorder':
-                viol('R-ITER', 'lists-agents-in-joining-order', f"get_agents does not make one in-order pass over the agents "
-                     f"({[repr(e.data.get('iter')) for e in loops]})", where)
-                return False
-            lp = loops[0]
-            iters = [e for e in p.events if e.kind == 'iter' and e.node is lp.node]
-            ends = [e for e in p.events if e.kind == 'endloop' and e.node is lp.node]
-            if any(e.data.get('how') != 'exhausted' for e in ends):
-                viol('R-ITER', 'every-agent-considered', "get_agents leaves the loop over the agents early", where)
-                return False
-            bounds = [p.events.index(e) for e in iters] + [p.events.index(ends[-1])]
-            for k, it_ev in enumerate(iters):
-                seg = p.events[bounds[k]:bounds[k + 1]]
-                info = it_ev.data['info']
-                key = info.get('var') or info.get('index')
-                ag = Sub(agents, key) if info.get('kind') != 'items' else Sub(info['seq'], info['index'])
-                if isinstance(lp.data.get('iter'), App) and lp.data['iter'].fn == '.values':
-                    ag = info.get('var')
-                hc = ATruthy(App('call:' + CORE + 'Agent.has_component', (ag, App('*', (va,)))))
-                F = f_and(*[e.data['formula'] for e in seg if e.kind == 'cond'])
-                apps = [e for e in seg if e.kind == 'store' and strip_versions(e.data.get('target')) == L]
-                if implies(F, hc) is None:
-                    good = len(apps) == 1 and apps[0].data.get('store') == 'append' and apps[0].data.get('args') == (ag,)
-                elif implies(F, f_not(hc)) is None:
-                    good = not apps
+    # lazy filters created in a loop bind the loop variable late (language fact): every generator/lambda then sees the
+    # variable's final value, so a chain of per-type filters tests only the last listed type
+    import ast as _ast
+    CONSUMERS = {'list', 'tuple', 'set', 'frozenset', 'sorted', 'sum', 'any', 'all', 'max', 'min', 'next', 'dict', 'len'}
+    for qf in (ga, cx.fn(CORE + 'Agent.has_component')):
+        parents = {}
+        for nn in _ast.walk(qf.node):
+            for ch in _ast.iter_child_nodes(nn):
+                parents[id(ch)] = nn
+        for loop in [x for x in _ast.walk(qf.node) if isinstance(x, _ast.For)]:
+            names = {t.id for t in _ast.walk(loop.target) if isinstance(t, _ast.Name)}
+            for g in [x for st_ in loop.body for x in _ast.walk(st_) if isinstance(x, (_ast.GeneratorExp, _ast.Lambda))]:
+                if isinstance(g, _ast.GeneratorExp):
+                    lazy_parts = [g.elt] + [c for gen in g.generators for c in gen.ifs] + [gen.iter for gen in g.generators[1:]]
                 else:
-                    good = False
-                if not good:
-                    viol('R-GUARD', 'agent-listed-iff-has_component', f"get_agents: under [{F!r}] the agent is stored {len(apps)} time(s); it "
-                         f"must be appended once exactly when has_component(*args) holds", cx.where(ga, it_ev.line), path=p.lines())
-                    return False
-            return True
-        viol('R-FRESH', 'returns-a-fresh-list', f"get_agents returns {L!r}: not a list allocated in this call (a live view would change "
-             f"under the caller, and the caller's edits would reach the environment)", where)
-        return False
+                    lazy_parts = [g.body]
+                used = {x.id for part in lazy_parts for x in _ast.walk(part) if isinstance(x, _ast.Name)} & names
+                par = parents.get(id(g))
+                consumed = isinstance(par, _ast.Call) and isinstance(par.func, _ast.Name) and par.func.id in CONSUMERS and g in par.args
+                if used and not consumed:
+                    viol('R-GUARD', 'lazy-filter-binds-loop-variable-late',
+                         f"{qf.name}: a lazy {'generator' if isinstance(g, _ast.GeneratorExp) else 'lambda'} created inside the loop over "
+                         f"{sorted(names)} refers to the loop variable {sorted(used)} and is not consumed inside the iteration: when it "
+                         f"finally runs, every such filter sees the LAST value, so only the last listed component type is tested",
+                         cx.where(qf, g.lineno))
+    from .common import list_facts
+    from sa.terms import ATruthy as _AT, term_symbols, drop_literals
+    all_paths = cx.walker.paths(ga, WalkOptions(unroll=1, no_inline=frozenset({'has_component'})))
+    notempl = mk_cmp(App('len', (va,)), '==', Num(Fraction(0)))
 
+    def is_base(src):
+        return not isinstance(src, Fresh) and order_class(src, agents) == 'inorder'
     n = 0
-    for p in cx.walker.paths(ga, WalkOptions(unroll=1)):
+    for p in all_paths:
         if p.end != 'return':
             continue
         n += 1
         v = p.last.data.get('value')
         where = cx.where(ga, p.last.line)
-        tagged = implies(p.cond, f_not(none_tag)) is None
-        untagged = implies(p.cond, none_tag) is None
-        if not (tagged or untagged):
+        if any(isinstance(a, _AT) and a.t == tag for c in p.conds for a in atoms_of(c)):
             viol('R-NONE', 'tag-filter-decided-by-is-not-None',
-                 f"get_agents decides whether to filter by tag with [{p.cond!r}], not with `tag is not None`: the legal tag 0 (the "
-                 f"default tag NONE) would be treated as 'no filter'", where)
+                 f"get_agents decides whether to filter by tag with the truthiness of `tag` ([{p.cond!r}]), not with `tag is not None`: "
+                 f"the legal tag 0 (the default tag NONE) would be treated as 'no filter'", where)
             continue
-        if untagged:
-            base_list_ok(p, v, where)
+        if not isinstance(v, Fresh):
+            viol('R-FRESH', 'returns-a-fresh-list', f"get_agents returns {v!r}: not a list allocated in this call (a live view would "
+                 f"change under the caller, and the caller's edits would reach the environment)", where)
             continue
-        # tagged: [a for a in base if a.tag == tag]
-        if not (isinstance(v, Fresh) and v.kind == 'listcomp' and isinstance(v.detail, CompInfo) and len(v.detail.gens) == 1):
-            viol('R-FRESH', 'returns-a-fresh-list', f"get_agents (tag given) returns {v!r}", where)
+        lf = list_facts(all_paths, p, v, is_base)
+        if not lf.ok:
+            cx.inconclusive('R-GUARD', 'get_agents result', f"the returned list could not be traced back to Environment.agents: {lf.err}",
+                            where=where, function=ga.qualname)
+            reported.add('inconclusive')
             continue
-        tgt, src, conds = v.detail.gens[0]
-        want = mk_cmp(Attr(tgt, 'tag'), '==', tag)
-        if not (v.detail.elt == tgt and len(conds) == 1 and conds[0] == want):
-            viol('R-GUARD', 'tag-filter-is-equality', f"get_agents filters by tag with {[repr(c) for c in conds]}; it must keep exactly the "
-                 f"agents with a.tag == tag", where)
+        if lf.elem is None:
+            # an empty list on this path: acceptable only if nothing can match, i.e. never for a populated environment
+            viol('R-GUARD', 'lists-the-matching-agents', f"get_agents returns an empty list on the path [{p.cond!r}]", where)
             continue
-        base_list_ok(p, src, where)
+        src = strip_versions(lf.base_src)
+        if src == agents:
+            ag = Sub(agents, lf.base_var)
+        elif isinstance(src, App) and src.fn == '.items' and isinstance(lf.base_var, TupleT):
+            ag = lf.base_var.items[1]
+        else:
+            ag = lf.base_var
+        if lf.elem != ag:
+            viol('R-FRESH', 'yields-the-agents', f"get_agents collects {lf.elem!r} for each entry of {src!r}, not the agent {ag!r}", where)
+            continue
+        hc = _AT(App('call:' + CORE + 'Agent.has_component', (ag, App('*', (va,)))))
+        E = f_and(f_or(notempl, hc), f_or(none_tag, mk_cmp(Attr(ag, 'tag'), '==', tag)))
+        # the path-level decisions (template given? tag given?) are the assumption under which this path's list is judged
+        keep = {repr(notempl), repr(f_not(notempl)), repr(none_tag), repr(f_not(none_tag))}
+        assume = f_and(*[c for c in p.conds if not term_symbols(c) & term_symbols(ag) and
+                         all(isinstance(a, (type(none_tag),)) or (va in term_symbols(a)) or (tag in term_symbols(a)) for a in atoms_of(c))])
+        try:
+            cex = compare(lf.cond, E, assume=assume, domain='int')
+        except Exception as ex:
+            cx.inconclusive('R-GUARD', 'get_agents filter', f"filter comparison not possible: {ex}", where=where, function=ga.qualname)
+            reported.add('inconclusive')
+            continue
+        if cex is not None:
+            show = {a: b for a, b in cex.items() if not a.startswith('_')}
+            viol('R-GUARD', 'exact-template-and-tag-filter',
+                 f"get_agents keeps an agent under [{lf.cond!r}] (path [{assume!r}]) but the exact filter is [{E!r}]: all listed "
+                 f"component types (has_component(*args)) and, when a tag is given, a.tag == tag; they differ at {show} (code keeps "
+                 f"the agent: {cex['_left']})", where, found=repr(lf.cond), expected=repr(E), counterexample=cex)
     cx.floor('get_agents returning paths', n, 4)
     if not reported:
         cx.ok('R-GUARD', 'get_agents: fresh list, joining order, has_component(*args) template filter, tag filter iff tag is not None',
